@@ -45,6 +45,15 @@ CHECKS = {
  "C09": ("proptest+enumerator", "property-based testing (proptest recipes over the serde value tree, shrinking) + systematic single-leaf extreme-value sweep + hostile typed constructors, oracle = independent frame parser in catch_unwind, both build profiles",
          "Generated-input exploration of the encoder over all supported types: type-directed mutations reach out-of-range, NaN/inf, full lists, inconsistent satellite/signal sets; every numeric leaf of two bases per type is set to 15 extreme values; both build profiles.",
          "all values constructed through public fields/constructors (serde is the construction vehicle only)", "§3 C09"),
+ "C01": ("proptest+generators", "property-based testing (proptest recipes over the serde value tree, shrinking) for the encoder side + structure-aware frame generators for the decoder side; oracle = round trip / normal form / fixed point",
+         "Generated-input exploration over all supported types: (A) accepted messages decode to their own variant and re-encode byte-identically under the stated precondition (evaluated on the input), (B) decoded messages accepted by the encoder are fixed points up to 1059/1065 group order.",
+         "precondition predicate uses SSR signal tables pinned in the harness; only decoded messages are compared with ==", "§3 C01"),
+ "C12": ("proptest", "stateful property-based testing (proptest): generated build-call histories over a pool of messages, fresh-builder differential at every step, shrinking of the history",
+         "Model-based exploration of builder histories: pool of ~2600 messages (every type, every list filled to capacity, refused-early and refused-late messages), histories of up to 12 calls plus target; the reused builder must match a fresh builder at every step.",
+         "error kinds not compared", "§3 C12"),
+ "C20": ("proptest+generators", "property-based testing (proptest recipes, shrinking) + decoded generated frames; oracle = serialize/deserialize identity through an own self-describing value model and serde_json::Value",
+         "Generated-input exploration over all supported types plus the wire-less variants; exact in-memory data models (no text format).",
+         "NaN-carrying messages are outside the property", "§3 C20"),
 }
 PENDING = {}
 def load_pending():
